@@ -197,6 +197,9 @@ func genMain(args []string) {
 		}()
 		f(g)
 	}()
+	for _, c := range g.st.changedLater() {
+		g.check(false, "result-changed-later", "bytes the library returned from one call were changed by a later call (the caller's copy of an earlier result is no longer what was returned): "+c, c)
+	}
 	for _, m := range g.st.mutations {
 		g.check(false, "input-mutated", "a call modified one of its input buffers: "+trunc(m, 200), m)
 	}
